@@ -106,6 +106,16 @@ def ulp_adjacent(base=0.5):
     return g
 
 
+def int_top(K, dtype=np.uint8):
+    """narrow integer scores saturating at the top of their dtype: the largest abstract value K-1 maps to
+    the dtype's maximum; abstract values beyond it (thresholds above every score) are floats"""
+    top = int(np.iinfo(dtype).max)
+    off = top - (K - 1)
+    name = f"int_top({np.dtype(dtype).name})"
+    return Gamma(name, lambda v: dtype(off + v) if np.iinfo(dtype).min <= off + v <= top else float(off + v),
+                 lambda x: float(x) - off, dtype=dtype)
+
+
 BIG = 2 ** 53
 
 
